@@ -542,3 +542,21 @@ package eval
 //@   ensures [C10] found: forall i int :: {podOfPeer(peer).Ports[i]} (0 <= i && i < len(podOfPeer(peer).Ports) && podOfPeer(peer).Ports[i].Name == namedPort
 //@         && (forall j int :: {podOfPeer(peer).Ports[j]} (0 <= j && j < i) ==> podOfPeer(peer).Ports[j].Name != namedPort)) ==>
 //@         (protocol == cpProto(podOfPeer(peer).Ports[i]) && portNum == podOfPeer(peer).Ports[i].ContainerPort)
+
+// ---------------------------------------------------------------------------------------------
+// Pods of one owner must carry the same labels (C19): a key present on one pod and absent on the other is a difference,
+// whatever its value (also the empty string)
+// ---------------------------------------------------------------------------------------------
+
+//@ fun hasLabel(m map[string]string, k string) bool = m != nil && k in m
+//@ pred sameLabels(a map[string]string, b map[string]string) = forall k string :: {k in a} {k in b} (hasLabel(a, k) == hasLabel(b, k)) && (hasLabel(a, k) ==> a[k] == b[k])
+// V: label keys are never empty (the empty key is how "no difference" is returned)
+//@ func diffBetweenPodsLabels
+//@   requires firstPod != nil && newPod != nil && !hasLabel(firstPod.Labels, "") && !hasLabel(newPod.Labels, "")
+//@   ensures [C19] same: key == "" ==> sameLabels(firstPod.Labels, newPod.Labels)
+//@   ensures [C19] differ: key != "" ==> !sameLabels(firstPod.Labels, newPod.Labels)
+//@   loop 1:
+//@     invariant agree: forall k string :: {seen(k)} seen(k) ==> (hasLabel(newPod.Labels, k) && hasLabel(firstPod.Labels, k) && firstPod.Labels[k] == newPod.Labels[k])
+//@   loop 2:
+//@     invariant agree: forall k string :: {k in newPod.Labels} hasLabel(newPod.Labels, k) ==> (hasLabel(firstPod.Labels, k) && firstPod.Labels[k] == newPod.Labels[k])
+//@     invariant back: forall k string :: {seen(k)} seen(k) ==> (hasLabel(firstPod.Labels, k) && hasLabel(newPod.Labels, k))
